@@ -590,4 +590,88 @@ example : (match applyString exMixCtx exMixLookup 4 with
                   [(11, 0), (6, 1), (7, 2), (8, 2), (7, 2), (3, 3)]
     | .error _ => false) = true := by decide
 
+
+/-- **C06, one application of a multiple-substitution subtable** at the current glyph of any in/out buffer state is the
+    specification's `applySimple` on the projected string `toG (out[0..out_len) ++ info[idx..len))` at position `out_len`:
+    same decision (apply / decline), same new string, and the specification's resume index is the new `out_len`. -/
+theorem C06_multiple_step_refines_spec (recurse : Ctx → Nat → M (Ctx × Bool)) (full : Bool) (c : Ctx)
+    (cov : Cov) (seqs : List (List Nat)) (x : Info) (R : List Info) (alt : Nat)
+    (hinv : Inv c.buf) (hin : inP c.buf = x :: R) (hgid : x.gid < 65536)
+    (hseq : ∀ ss ∈ seqs, ss ≠ []) (hb : ∀ ss ∈ seqs, c.buf.outLen + ss.length ≤ c.buf.maxLen) :
+    match applySimple (.multiple cov seqs) ((outP c.buf ++ inP c.buf).map toG) c.buf.outLen alt with
+    | none => applySubtable recurse full c (.multiple cov seqs) = .ok (c, false)
+    | some (gs', nxt) =>
+      ∃ b', applySubtable recurse full c (.multiple cov seqs) = .ok ({ c with buf := b' }, true) ∧ Inv b' ∧
+        b'.successful = c.buf.successful ∧ (outP b' ++ inP b').map toG = gs' ∧ b'.outLen = nxt := by
+  obtain ⟨hcur, hx⟩ := inP_head c.buf hinv x R hin
+  have hget : Mem.get c.buf.info c.buf.idx = .ok x := by unfold Mem.get; rw [hx]; rfl
+  have hol := outP_length c.buf hinv
+  have hgs : ((outP c.buf ++ inP c.buf).map toG)[c.buf.outLen]? = some (toG x) := by
+    rw [hin, List.getElem?_map, List.getElem?_append_right (by omega), hol]
+    simp
+  have hxg : (toG x).gid = x.gid := rfl
+  simp only [applySimple, hgs, hxg]
+  simp only [applySubtable, bind, Except.bind, hget, Nat.mod_eq_of_lt hgid]
+  cases hc : cov.index x.gid with
+  | none => simp only [Option.bind, pure, Except.pure]
+  | some k =>
+    cases hs : seqs[k]? with
+    | none => simp only [Option.bind, hs, pure, Except.pure]
+    | some ss =>
+      have hmem : ss ∈ seqs := List.mem_of_getElem? hs
+      obtain ⟨b', outs, hrun, hinv', ho, hi, hm, hsu, _⟩ :=
+        applySeq_spec C06_gen_buffer_variants.2 c ss (hseq ss hmem) x R hinv hin (hb ss hmem)
+      have hol' : b'.outLen = c.buf.outLen + ss.length := by
+        have h1 := outP_length b' hinv'
+        rw [ho] at h1
+        have h2 : outs.length = ss.length := by
+          have := congrArg List.length hm
+          simpa using this
+        simp [hol, h2] at h1
+        omega
+      simp only [Option.bind, hs, pure]
+      refine ⟨b', ?_, hinv', hsu, ?_, hol'⟩
+      · match ss, hrun with
+        | [], hrun => exact absurd rfl (hseq [] hmem)
+        | [s], hrun =>
+          simp only [applySeq] at hrun
+          simp only [hrun]
+          rfl
+        | s1 :: s2 :: r, hrun =>
+          simp only [applySeq, bind, Except.bind] at hrun
+          cases hl : applySubtable.loop (if isLigature x then GP.BASE_GLYPH else 0) (ligId x) c 0 (s1 :: s2 :: r) with
+          | error e => rw [hl] at hrun; cases hrun
+          | ok c1 =>
+            rw [hl] at hrun
+            simp only [pure, Except.pure] at hrun
+            simp only [hl]
+            exact congrArg (fun z => z.map (fun c' => (c', true))) hrun
+      · rw [ho, hi, hin]
+        simp only [replaceAt, List.map_append, List.map_cons]
+        rw [toG_eq_projG, hm]
+        have dropA : ∀ {α} (A B : List α) (y : α) (o : Nat), A.length = o → (A ++ y :: B).drop (o + 1) = B := by
+          intro α A B y o h; subst h; simp
+        have takeA : ∀ {α} (A B : List α) (y : α) (o : Nat), A.length = o → (A ++ y :: B).take o = A := by
+          intro α A B y o h; subst h; simp
+        have hl : (List.map projG (outP c.buf)).length = c.buf.outLen := by simp [hol]
+        have h1 := takeA (List.map projG (outP c.buf)) (List.map projG R) (projG x) c.buf.outLen hl
+        have h2 := dropA (List.map projG (outP c.buf)) (List.map projG R) (projG x) c.buf.outLen hl
+        rw [h1, h2]
+
+/-! non-vacuity of the step theorem: a separate-output state (two glyphs out, two to come), glyph 1 → 11 2 11 -/
+def exStepBuf : Buf :=
+  { info := [⟨9,1,0,0,0⟩, ⟨9,1,0,0,0⟩, ⟨1,1,2,GP.BASE_GLYPH,0⟩, ⟨3,1,3,0,0⟩], out := [⟨7,1,0,0,0⟩, ⟨8,1,1,0,0⟩, {}, {}],
+    idx := 2, len := 4, outLen := 2, haveOutput := true, sepOut := true }
+example : Inv exStepBuf := ⟨by decide, by decide, by decide, by decide, by decide, by decide⟩
+example : inP exStepBuf = [⟨1,1,2,GP.BASE_GLYPH,0⟩, ⟨3,1,3,0,0⟩] := by decide
+example : (match applySubtable (recurseAt MAX_NESTING_LEVEL) true { exMultiCtx with buf := exStepBuf } (.multiple [1, 3] [[11, 2, 11], [5]]) with
+    | .ok (c', ok) => (ok, (outP c'.buf ++ inP c'.buf).map (·.gid), c'.buf.outLen) == (true, [7, 8, 11, 2, 11, 3], 5)
+    | .error _ => false) = true := by decide
+
+/-! the budget hypothesis is not idle: the same text with `max_len = 5` (final string: 8 glyphs) — `make_room_for` refuses,
+    the buffer is marked unsuccessful and `sync` throws the output away -/
+example : (match applyString { exMultiCtx with buf := { exMultiCtx.buf with maxLen := 5 } } exMultiLookup 4 with
+    | .ok c' => (c'.buf.successful, (c'.buf.info.take c'.buf.len).map (·.gid)) == (false, [1, 2, 1, 3])
+    | .error _ => false) = true := by decide
+
 end RbModel.Gsub
